@@ -25,6 +25,7 @@ mod c_solver;
 mod c_render;
 mod c_tree;
 mod c_raster;
+mod c_voxel;
 mod c_deriv;
 mod helpers;
 
@@ -62,7 +63,7 @@ fn main() {
 }
 
 /// contracts that run JIT evaluators in-process (`total` manages its own children)
-const JIT_IN_PROCESS: [&str; 14] = ["render2d", "interval_sweep", "solver_linear", "render_handle", "solver_bind", "shape_transform", "jit_point", "jit_bulk", "jit_interval", "jit_interval_valid", "jit_grad", "jit_trace", "simplify_sem", "reuse"];
+const JIT_IN_PROCESS: [&str; 15] = ["render3d", "render2d", "interval_sweep", "solver_linear", "render_handle", "solver_bind", "shape_transform", "jit_point", "jit_bulk", "jit_interval", "jit_interval_valid", "jit_grad", "jit_trace", "simplify_sem", "reuse"];
 
 fn guarded(contract: &str, rest: &[String]) -> serde_json::Value {
     let died = |what: String| {
@@ -102,6 +103,7 @@ pub fn run(contract: &str, thorough: bool, seed: u64) -> Report {
         "interval_sweep" => c_interp::interval_sweep(thorough),
         "tree_clauses" => c_tree::tree_clauses(thorough, seed),
         "render2d" => c_raster::render2d(thorough),
+        "render3d" => c_voxel::render3d(thorough),
         "flatten" => c_flatten::flatten(thorough, seed),
         "alloc_cex" => c_alloc::alloc_cex(thorough, seed),
         "alloc_small_n" => c_alloc::alloc_small_n(thorough, seed),
@@ -142,6 +144,7 @@ fn replay(v: &serde_json::Value) -> i32 {
         "interval_sweep" => c_interp::sweep_replay(v),
         "tree_clauses" => c_tree::replay(v),
         "render2d" => c_raster::replay(v),
+        "render3d" => c_voxel::replay(v),
         "jit_point" | "jit_bulk" | "jit_interval" | "jit_interval_valid" | "jit_grad" => c_jit::replay(v),
         "trace_vm" | "jit_trace" => c_trace::replay(v),
         "simplify_sem" => c_simplify::replay(v),
